@@ -9,7 +9,7 @@ HDR = ('From Coq Require Import Arith List Bool.\nImport ListNotations.\nFrom PQ
 
 
 def keys_of(args):
-    return [(s, str(d.get('error_type')), r) for s in args['sizes'] for d in args.get('decs', [{}]) for r in args['rates']]
+    return [(s, str(d.get('error_type')) + ('+weights' if d.get('weights') is not None else ''), r) for s in args['sizes'] for d in args.get('decs', [{}]) for r in args['rates']]
 
 
 def run(rep, work, tier, seed, only=None):
